@@ -617,6 +617,53 @@ def case_intersect(case):
     return {"v": v[:4], "t": t, "o": repr((n, k, l, case["A"], m, len(Asel))), "nt": True}
 
 
+def _gauss_rank(rows):
+    """exact rank over the Gaussian rationals of rows given as [[re, im], ...] lists: half the exact real rank of
+    the realification [[Re, -Im], [Im, Re]]."""
+    re = [[z[0] for z in r] for r in rows]
+    im = [[z[1] for z in r] for r in rows]
+    top = [a + [-x for x in b] for a, b in zip(re, im)]
+    bot = [b + a for a, b in zip(re, im)]
+    return L.exact_rank(top + bot) // 2
+
+
+def complex_pool(n):
+    """standard basis + Vandermonde rows with Gaussian-integer nodes, entries as [re, im]."""
+    pool = [[[1 if a == b else 0, 0] for b in range(n)] for a in range(n)]
+    for node in (complex(1, 1), complex(0, -1), complex(2, -1)):
+        row, z = [], 1 + 0j
+        for b in range(n):
+            row.append([int(round(z.real)), int(round(z.imag))])
+            z = z * node
+        pool.append(row)
+    return pool
+
+
+@_quiet
+def case_intersect_complex(case):
+    """Subspaces of C^n spanned by Gaussian-integer rows: A against every transverse l-subset of the pool."""
+    from geometry_tools import projective
+    n, k, l = case["n"], case["k"], case["l"]
+    pool = case["pool"]
+    cx = lambda rows: np.array([[complex(z[0], z[1]) for z in r] for r in rows])
+    Arows = [pool[j] for j in case["A"]]
+    if _gauss_rank(Arows) != k or not any(z[1] for r in Arows for z in r):
+        return {"v": [], "t": 0, "o": "out-of-domain:dependent-or-real", "nt": False}
+    A = cx(Arows)
+    v, t = [], 0
+    for comb in itertools.combinations(range(len(pool)), l):
+        Brows = [pool[j] for j in comb]
+        if _gauss_rank(Brows) != l or _gauss_rank(Arows + Brows) != n:
+            continue
+        B = cx(Brows)
+        R = np.asarray(projective.Subspace(A.copy()).intersect(projective.Subspace(B.copy())).proj_data)
+        t += 1
+        _check_intersection(v, A, B, R, "complex")
+        if len(v) > 3:
+            break
+    return {"v": v[:4], "t": t, "o": repr((n, k, l, case["A"], t)), "nt": t > 0}
+
+
 # composites of rank >= 2: (composite shape of self, composite shape of other)
 PAIRWISE_SHAPES = [[[2, 2], [2]], [[2, 3], [3]], [[2], [2, 2]], [[3], [2, 3]], [[2, 2], [2, 2]], [[3, 2], [2, 2]], [[2, 2], []], [[], [2, 3]],
                    [[2, 1, 2], [2]], [[2], [2, 1, 2]], [[1, 2], [3]], [[2, 2], [1]]]
@@ -1276,6 +1323,19 @@ def run(ctx):
     ctx.product("subspace-intersect", "checks.c16:case_intersect", int_cases,
                 domains={"ambient vector dimension": "2..6", "pool": "standard basis + 1..2 Vandermonde rows (seed rotates the nodes)",
                          "pairs": "every k-subset x every transverse l-subset, k+l >= n (k+l = n: complementary, result has 0 rows)", "broadcast": ["single", "elementwise", "pairwise"]}, chunk=16)
+
+    cx_cases = []
+    for n in range(2, 6):
+        pool = complex_pool(n)
+        for k in range(1, n + 1):
+            for l in range(1, n + 1):
+                if k + l <= n:
+                    continue
+                for comb in itertools.combinations(range(len(pool)), k):
+                    cx_cases.append({"n": n, "k": k, "l": l, "pool": pool, "A": list(comb)})
+    ctx.product("subspace-intersect-complex", "checks.c16:case_intersect_complex", cx_cases,
+                domains={"ambient vector dimension": "2..5", "pool": "standard basis + Vandermonde rows with nodes 1+i, -i, 2-i (Gaussian integers)",
+                         "pairs": "every k-subset with a non-real row x every transverse l-subset, k + l > n (exact rank over Q(i))"}, chunk=16)
 
     comp_cases = []
     for n in range(2, 7):
